@@ -37,18 +37,37 @@ theorem close_releases_all' (tls : Bool) (ops : List SOp) :
 /-- `reopen` leaves exactly the fresh listen socket open -/
 theorem reopen_releases_all (tls : Bool) (ops : List SOp) :
     (((Server.start tls).run ops).reopen).openSocks = [((Server.start tls).run ops).nextSid] := by
-  have h := close_openSocks (run_life ops (start_life tls))
-  generalize (Server.start tls).run ops = s at h
-  unfold Server.openSocks at h ⊢
-  have e1 : s.reopen.ixes = s.close.ixes := rfl
-  have e2 : s.reopen.cxes = s.close.cxes := rfl
-  have e3 : s.reopen.gone = s.close.gone := rfl
-  have e4 : s.close.curListen = none := rfl
-  have e5 : s.reopen.curListen = some s.nextSid := rfl
-  rw [e4] at h
-  rw [e1, e2, e3, e5]
-  simp only [Option.toList_none, List.nil_append] at h
-  rw [h]; rfl
+  have hl := run_life ops (start_life tls)
+  generalize (Server.start tls).run ops = s at hl
+  have hr := reopen_life hl
+  have hc := close_life hl
+  have hix : ∀ p ∈ s.reopen.ixes, p.2.csOpen = false := (reclose_closed s).1
+  have hcx : ∀ p ∈ s.reopen.cxes, p.2.csOpen = false := by
+    intro p hp
+    have : s.reopen.cxes = [] := (reclose_closed s).2
+    rw [this] at hp; cases hp
+  rw [openSocks_of_allClosed s.reopen hix hcx hr.gone]
+  have : s.reopen.curListen = some s.reclose.nextSid := rfl
+  have hn : s.reclose.nextSid = s.nextSid := by unfold Server.reclose; simp only; split <;> rfl
+  rw [this, hn]; rfl
+
+/-- an `open()` that fails (bind/listen raising: address in use, no permission …) leaves NO socket open — neither the listen
+socket it had just created nor anything of the previous opening — after every history (failed opens included in it) -/
+theorem failed_open_leaves_nothing (tls : Bool) (ops : List SOp) :
+    (((Server.start tls).run ops).reopenFail).openSocks = [] := by
+  have hl := run_life ops (start_life tls)
+  generalize (Server.start tls).run ops = s at hl
+  have hr := reopenFail_life hl
+  have hcx : ∀ p ∈ s.reopenFail.cxes, p.2.csOpen = false := by
+    intro p hp
+    have : s.reopenFail.cxes = [] := (reclose_closed s).2
+    rw [this] at hp; cases hp
+  rw [openSocks_of_allClosed s.reopenFail (reclose_closed s).1 hcx hr.gone]
+  rfl
+
+/-- histories with failed opens: two failed re-opens, a good one, a peer, then close -/
+example : (((Server.start false).run [.reopenf, .reopenf, .reopen, .conn ⟨1, [], [], [], false⟩, .svc]).close).openSocks = [] ∧
+    ((Server.start false).run [.reopenf, .reopenf, .reopen, .conn ⟨1, [], [], [], false⟩, .svc]).nextSid = 5 := by decide
 
 /-- non-vacuity / regression (F13, F14): TLS server, one peer never handshakes, one connects twice from the same address -/
 example : ((Server.start true).run [.conn ⟨1, [], [], [], false⟩, .conn ⟨2, [], [], [.ok], false⟩, .svc, .conn ⟨2, [], [], [.ok], false⟩, .svc]).openSocks
